@@ -362,6 +362,43 @@ func c18(c *Ctx) {
 
 	c.R.Rule("R18.6", "allow tree: true only via a child keyed by the request segment or the wildcard; every expanded request is checked; Rule.path carries every field; empty ResourceNames expand to the wildcard", 6,
 		"a tree that answers true too easily grants requests the administrator never allowed")
+	// the tree is built the way it is read: a path is marked allowed at the node its LAST segment leads to
+	if aw := c.method(pkg, "node", "Allow"); aw != nil && len(aw.Params) == 2 {
+		var atEnd []cfgx.Edge
+		for _, lc := range cfgx.LenCmps(aw) {
+			if flow.Root(lc.Of) != ssa.Value(aw.Params[1]) {
+				continue
+			}
+			tr, fa := lc.Edges()
+			switch {
+			case lc.Op == token.EQL && lc.Const == 0 && !lc.Swap, lc.Op == token.LSS && lc.Const == 1 && !lc.Swap, lc.Op == token.LEQ && lc.Const == 0 && !lc.Swap:
+				atEnd = append(atEnd, tr...)
+			case lc.Op == token.NEQ && lc.Const == 0, lc.Op == token.GTR && lc.Const == 0 && !lc.Swap, lc.Op == token.GEQ && lc.Const == 1 && !lc.Swap:
+				atEnd = append(atEnd, fa...)
+			}
+		}
+		n := 0
+		for _, b := range aw.Blocks {
+			for _, in := range b.Instrs {
+				if st, ok := in.(*ssa.Store); ok && isFieldSel(st.Addr, "roles.node", "allowed") {
+					n++
+					c.requireCross(load.FuncName(aw)+": allowed only at the end of the path", st, atEnd, "len(p) == 0")
+				}
+			}
+		}
+		rec := calls(aw, "(*"+xp+pkg+".node).Allow")
+		for _, rc := range rec {
+			good := false
+			if sl, ok := cfgx.CallArgs(rc)[0].(*ssa.Slice); ok && sl.Low != nil && sl.High == nil {
+				k, isC := cfgx.ConstInt(sl.Low)
+				good = isC && k == 1 && flow.Root(sl.X) == ssa.Value(aw.Params[1])
+			}
+			c.R.Check(good, site(rc)+" tail", c.pos(rc.Pos()), "recurses on p[1:]", "the insertion does not consume exactly one path segment per level")
+		}
+		if n == 0 || len(rec) == 0 {
+			c.R.Unknown(load.FuncName(aw)+": shape", c.pos(aw.Pos()), "expected n.allowed = true at the end of the path and a recursion on the tail")
+		}
+	}
 	al := c.method(pkg, "node", "Allowed")
 	if al != nil {
 		// every `return true` needs a successful children lookup; lookup keys derive from p[0] or the wildcard
